@@ -25,6 +25,8 @@ uint8_t verif_u8(const char* n) { return (uint8_t)next_val(8, n); }
 uint16_t verif_u16(const char* n) { return (uint16_t)next_val(16, n); }
 uint32_t verif_u32(const char* n) { return (uint32_t)next_val(32, n); }
 uint64_t verif_u64(const char* n) { return next_val(64, n); }
+uint32_t verif_range_u32(uint32_t lo, uint32_t hi, const char* n) { uint32_t v = (uint32_t)next_val(32, n); if (v < lo || v > hi) { printf("ASSUME-FALSE\n"); fflush(stdout); _exit(77); } return v; }
+uint64_t verif_range_u64(uint64_t lo, uint64_t hi, const char* n) { uint64_t v = next_val(64, n); if (v < lo || v > hi) { printf("ASSUME-FALSE\n"); fflush(stdout); _exit(77); } return v; }
 void verif_bytes(void* p, size_t n, const char* name) { for (size_t i = 0; i < n; i++) ((uint8_t*)p)[i] = (uint8_t)next_val(8, name); }
 void verif_assume(int c) { if (!c) { printf("ASSUME-FALSE\n"); fflush(stdout); _exit(77); } }
 void verif_assert(int c, const char* msg) { if (!c) { printf("VERIF-ASSERT-FAILED %s\n", msg); fflush(stdout); _exit(99); } }
